@@ -347,3 +347,121 @@ func ruleR17d(c *Ctx) {
 			"the '.0' suffix is missing, or is decided from the value instead of the formatted text: integral floats parse back as integers, or large ones print as 1e+21.0, which is not a number literal")
 	}
 }
+
+// R17f: the printer's string quoting (ast.quoteString) and the parser's unquoting (parse.unescapes,
+// \uNNNN with exactly four hex digits) are inverse tables. Each escaping arm writes a backslash and a letter
+// the parser maps back to the arm's character; every other character is written as itself; a formatted
+// \u escape is allowed only where the character is known to fit four hex digits.
+func ruleR17f(c *Ctx) {
+	ap, pp := c.pkg("ast"), c.pkg("parse")
+	fd := c.mustFunc("ast", "quoteString")
+	if ap == nil || pp == nil || fd == nil {
+		return
+	}
+	info := ap.TypesInfo
+	// the parser's table
+	un := map[rune]rune{}
+	if init := c.pkgVarInit("parse", "unescapes"); init != nil {
+		if cl, ok := init.(*ast.CompositeLit); ok {
+			for _, el := range cl.Elts {
+				if kv, ok := el.(*ast.KeyValueExpr); ok {
+					k, v := pp.TypesInfo.Types[kv.Key].Value, pp.TypesInfo.Types[kv.Value].Value
+					if k != nil && v != nil {
+						ki, _ := constant.Int64Val(k)
+						vi, _ := constant.Int64Val(v)
+						un[rune(ki)] = rune(vi)
+					}
+				}
+			}
+		}
+	}
+	if len(un) == 0 {
+		c.fatalf("anchor: parse.unescapes table not resolved")
+		return
+	}
+	var sw *ast.SwitchStmt
+	ast.Inspect(fd.Body, func(x ast.Node) bool {
+		if s, ok := x.(*ast.SwitchStmt); ok && sw == nil {
+			sw = s
+		}
+		return true
+	})
+	if sw == nil {
+		c.fatalf("anchor: ast.quoteString has no switch over the character")
+		return
+	}
+	arms := 0
+	for _, cl := range sw.Body.List {
+		cc := cl.(*ast.CaseClause)
+		if cc.List == nil {
+			// default: exactly one write, of the character itself, under no condition
+			ok := len(cc.Body) == 1
+			if ok {
+				ok = false
+				if es, isES := cc.Body[0].(*ast.ExprStmt); isES {
+					if call, isCall := es.X.(*ast.CallExpr); isCall && len(call.Args) == 1 {
+						if se, isSel := call.Fun.(*ast.SelectorExpr); isSel && se.Sel.Name == "WriteRune" && exprKey(call.Args[0]) == exprKey(sw.Tag) {
+							ok = true
+						}
+					}
+				}
+			}
+			switch {
+			case ok:
+				c.ok("R17f", "ast.quoteString default", cc.Pos(), "every other character is written as itself")
+			default:
+				// a formatted \u escape must be bounded to four hex digits (a condition naming U+FFFF / 0x10000)
+				hasU, bounded := false, false
+				ast.Inspect(&ast.BlockStmt{List: cc.Body}, func(y ast.Node) bool {
+					switch n := y.(type) {
+					case *ast.BasicLit:
+						if strings.Contains(n.Value, `\u%`) {
+							hasU = true
+						}
+					case *ast.IfStmt:
+						ast.Inspect(n.Cond, func(z ast.Node) bool {
+							if e, isE := z.(ast.Expr); isE {
+								if tv, has := info.Types[e]; has && tv.Value != nil && tv.Value.Kind() == constant.Int {
+									if v, exact := constant.Int64Val(tv.Value); exact && (v == 0xFFFF || v == 0x10000) {
+										bounded = true
+									}
+								}
+							}
+							return true
+						})
+					}
+					return true
+				})
+				if hasU && !bounded {
+					c.bad("R17f", "ast.quoteString default", cc.Pos(), "characters without an escape of their own are written with a formatted \\u escape that is not limited to U+FFFF: above it the escape has more than four hex digits, which the parser reads as a four-digit escape followed by a literal digit, so the printed literal parses back to a different string")
+				} else {
+					c.unk("R17f", "ast.quoteString default", cc.Pos(), "the default arm is not the plain write of the character; its agreement with the parser's unquoting is not decided")
+				}
+			}
+			continue
+		}
+		for _, e := range cc.List {
+			tv := info.Types[e]
+			if tv.Value == nil {
+				continue
+			}
+			v, _ := constant.Int64Val(tv.Value)
+			arms++
+			written := ""
+			ast.Inspect(&ast.BlockStmt{List: cc.Body}, func(y ast.Node) bool {
+				if call, ok := y.(*ast.CallExpr); ok && len(call.Args) == 1 {
+					if atv := info.Types[call.Args[0]]; atv.Value != nil && atv.Value.Kind() == constant.String {
+						written += constant.StringVal(atv.Value)
+					}
+				}
+				return true
+			})
+			key := fmt.Sprintf("ast.quoteString case %q", rune(v))
+			rs := []rune(written)
+			good := len(rs) == 2 && rs[0] == '\\' && un[rs[1]] == rune(v)
+			c.check(good, "R17f", key, cc.Pos(), fmt.Sprintf("written as %q, which the parser reads back as %q", written, rune(v)),
+				fmt.Sprintf("written as %q, which the parser's escape table does not read back as %q", written, rune(v)))
+		}
+	}
+	c.floor("R17f", "escaping arms of ast.quoteString", 5, arms)
+}
